@@ -9,7 +9,7 @@ CHECKS = {
     "C01": ("exploration", "DESIGN.md 5/C01",
             "reference-model monitor over generated op sequences (real store vs HashMap), merges via hook",
             "Thousands of generated single-threaded histories (all configurations of file size / reader cache / reader pool, values up to 200 KB, merges at random positions) are executed on the real store and every result is compared with a map model. Held on the histories generated; sampling, not enumeration.",
-            "Trusts the 30-line map model and the verif_merge hook (calls the private merge()). No concurrency (C04), no reopen (C02)."),
+            "Trusts the 30-line map model and the verif_merge hook (calls the private merge()). No concurrency (C04), no reopen (C02). An eighth of the episodes run with short counts from write, another eighth contain sets/deletes with one injected failing call (the key may then be in either state until written again)."),
     "C02": ("exploration", "DESIGN.md 5/C02",
             "reference-model monitor over generated set/del histories with close/reopen cycles",
             "Generated set/delete histories spanning 1..250 data files are interrupted by close/reopen cycles (1-4 in a row, configuration redrawn each time); after every reopen every key is read back and compared with the map model. Held on the histories generated.",
@@ -17,7 +17,7 @@ CHECKS = {
     "C05": ("exploration", "DESIGN.md 5/C05",
             "reference-model monitor around merge passes and reopen cycles, thresholds drawn to vary the selected subset",
             "Every key is read before a merge, right after it and after each of 1-3 following reopen cycles, for merges at random positions and thresholds from 8 families (all, none, fragmentation, dead bytes, small file, mixed, defaults), and compared with the map model. Held on the histories generated; the selected subsets seen are listed in the evidence.",
-            "Merges run through the verif_merge hook. Which subset a merge selects is observed from the files that disappear."),
+            "Merges run through the verif_merge hook. Which subset a merge selects is observed from the files that disappear. Some episodes contain sets/deletes or merge passes with one injected failing call."),
     "C12": ("exploration", "DESIGN.md 5/C12",
             "differential monitor: recovery of the same closed directory with and without its hint files",
             "At quiescent points after merges the closed directory is copied twice (as is / all *.hint removed), both copies are opened by the real code and every key must read the same in both. Held on the directory pairs generated; only pairs whose hint files were non-empty count as non-trivial.",
@@ -49,7 +49,7 @@ CHECKS = {
     "C04": ("exploration", "DESIGN.md 5/C04",
             "recorded concurrent histories at the Handle boundary checked by a per-key Wing-Gong linearizability search; panic / reader-pool / stall monitors; shim-injected delays",
             "Many threads (writers, readers, deleter, merging thread) drive one store in barrier-separated segments under seeded delay injection at file-system calls; every (key, segment) history is checked for linearizability against a set/get/del register, every op runs under catch_unwind, the reader pool is inspected at every barrier and a 30 s no-progress rule catches hangs. Thorough adds a ThreadSanitizer build of the same worker. Held on the interleavings produced.",
-            "Stamps from one atomic counter taken outside the calls (can only widen intervals). Interleavings are sampled. A quarter of the episodes run with short counts from write (an entry reaches its file in two calls)."),
+            "Stamps from one atomic counter taken outside the calls (can only widen intervals). Interleavings are sampled. A quarter of the episodes run with short counts from write (an entry reaches its file in two calls), another quarter with read-side failures armed now and then (a get or merge pass may then report an error, which is not a result)."),
     "C07": ("exploration", "DESIGN.md 5/C07",
             "differential monitor: Frame::check / Frame::parse vs an independent i128, non-recursive reference decoder over generated, truncated, corrupted and adversarial inputs; child-process death observed",
             "Millions of inputs (grammar-generated frames with all truncations and corruptions, numbers at every buffer offset 1..64 around the 2^63/2^64 limits, random RESP-alphabet strings, nesting up to 10^6, absurd lengths under RLIMIT_AS) are fed to check and parse on a 2 MiB stack in child processes: no panic, no death, every returned frame equals the reference's with the same length, and check/parse agree on length. Thorough adds a release build (wrapping arithmetic) and a Miri pass.",
@@ -57,11 +57,11 @@ CHECKS = {
     "C08": ("exploration", "DESIGN.md 5/C08",
             "round-trip monitor over an in-memory stream that delivers exactly chosen segments; reference encoder; exhaustive two-way splits and prefixes for short encodings",
             "Generated frame sequences are written with Connection::write_frame (bytes must equal the reference encoding) and read back with Connection::read_frame under all-at-once, byte-by-byte, every two-segment split and random segmentations (same frames, then clean None); every strict prefix must be Incomplete for Frame::check and a stream ending inside a frame must give an error. Thorough repeats a reduced set under Miri.",
-            "Nested arrays are not frames the connection can write (unimplemented in write_frame). The sink of the writer test takes everything or at most 1/7/4096/10000 bytes per write call."),
+            "Nested arrays are not frames the connection can write (unimplemented in write_frame). The sink of the writer test takes everything or at most 1/7/4096/10000 bytes per write call; a sixth of the read-back runs have one read fail with Interrupted, after which read_frame is called again."),
     "C06": ("exploration", "DESIGN.md 5/C06",
             "byte-exact reply-stream monitor over real TCP connections to the real server (child process): map model + reference encoder, varied segmentation and pipelining",
             "Generated SET/GET/DEL streams (arbitrary UTF-8 keys, values up to 256 KB) are sent to a child process running the real Server over a real store under one-byte / random / frame-aligned / all-at-once segmentation and pipelining depth 1..whole stream; the received bytes must equal the model's reply stream byte for byte, and the store dumped at the end must equal the model.",
-            "Receiver-side segmentation is influenced, not controlled (C08 controls it exactly). One server child per worker. One connection in seven half-closes its sending side before it reads."),
+            "Receiver-side segmentation is influenced, not controlled (C08 controls it exactly). One server child per worker. One connection in seven half-closes its sending side before it reads; every eighth case adds a client that leaves 12 MB of replies unread for a while."),
     "C10": ("exploration", "DESIGN.md 5/C10",
             "containment monitor: hostile streams of 14 classes on some connections while model-checked control connections run; process liveness, fresh-connection probe and store dump",
             "1-4 hostile connections (garbage, malformed and mistyped commands, truncation, nesting to 10^6, absurd lengths, handler panics) run concurrently with control connections whose every reply is checked byte for byte; afterwards the server process must be alive, a fresh connection served, and the dumped store equal the model changed only by well-formed SET/DEL.",
@@ -77,7 +77,7 @@ CHECKS = {
     "C16": ("exploration", "DESIGN.md 5/C16",
             "shutdown monitor: time to return of Server::run, byte streams of clients in drawn states parsed by the reference decoder, store dump vs acknowledged commands; real svr binary under SIGINT",
             "The shutdown future is completed at seeded moments while clients are idle, mid-frame, streaming commands (server writes delayed by the shim) or reading a large reply; run() must return within 15 s plus injected delays, every client stream must be whole correct replies then EOF/reset, and the store must hold every acknowledged command plus a prefix of the unacknowledged ones. Every 8th case uses the real svr binary with SIGINT and reopens the directory.",
-            "Clients keep reading. The time bound is wall clock with large slack."),
+            "Clients keep reading. The time bound is wall clock with large slack. Client states: idle, half a frame, streaming, big reply (sent in one write), flooding, trickling (keeps uploading after the signal)."),
     "C17": ("exploration", "DESIGN.md 5/C17",
             "lifecycle monitor: results of handle calls after drop, shim log by thread id, /proc thread and descriptor accounting, immediate reopen against the model",
             "Thousands of open/use/drop cycles with the merge timer far away, with merges running (delayed by the shim so drops land inside them) and with interval sync: every call through a kept handle must fail with 'closed' and cause no directory-changing call, the drop must return and the worker thread be gone promptly, the directory must open again at once with the model's contents, and threads and store descriptors must not accumulate.",
